@@ -1,6 +1,566 @@
-//! C19 monitor (not built yet)
-use vcore::{Args, Report};
+//! C19 (L1 part) — datagrams are carried whole, within the peer's size limit, or not at all.
+//!
+//! One history drives three real `qdatagram::DatagramFlow`s:
+//!  * `tx`  — the sender under test: `writer(peer_max)`, `DatagramWriter::send`, `try_load_data_into`
+//!            against custom packet targets (bounded `BufMut` + `RecordFrame`) whose remaining space is
+//!            chosen relative to the datagram at the head of the queue;
+//!  * `rx`  — a real receiver that advertised `peer_max` (`DatagramFlow::new(peer_max)`): every packet
+//!            payload produced by `tx` is decoded with the real `FrameReader` and its DATAGRAM frames
+//!            are handed to `rx.recv_frame`, then read back through `DatagramReader::poll_recv`;
+//!  * `own` — a receiver with `local_max`, fed crafted DATAGRAM frames (both forms) around the limit.
+//!
+//! Oracle (model = FIFO of accepted payloads, payload bytes are a PRF of the datagram ordinal):
+//!  send refuses iff 1+|d| > peer_max (writer creation refuses iff peer_max = 0); a load either writes
+//!  nothing and keeps the queue, or writes [PADDING]* + exactly one DATAGRAM frame whose payload is the
+//!  head of the queue; a datagram that fits an empty packet (space >= 1+|d|) is loaded; the frame
+//!  without length ends the packet; every emitted frame is no larger than peer_max and is accepted by
+//!  the real receiver that advertised peer_max; the receiving application reads the payloads unchanged,
+//!  unmerged, in order; an incoming frame (type + length field + payload) larger than local_max
+//!  => ProtocolViolation, a fitting one is accepted and readable.
+//!
+//! The clause "an accepted datagram is actually put on the wire" needs the whole stack (L2).
+use std::collections::VecDeque;
 
-pub fn run(_args: &Args, rep: &mut Report) {
-    rep.inconclusive("monitor not built yet");
+use bytes::{
+    BufMut, Bytes, BytesMut,
+    buf::UninitSlice,
+};
+use qbase::{
+    error::ErrorKind,
+    frame::{DatagramFrame, EncodeSize, Frame, FrameReader, io::ReceiveFrame},
+    packet::{RecordFrame, r#type::Type},
+    util::ContinuousData,
+    varint::VarInt,
+};
+use qdatagram::DatagramFlow;
+use serde_json::{Value, json};
+use std::task::{Context, Poll};
+use vcore::{Args, Report, Rng};
+
+// ---------------------------------------------------------------------------------------------
+// packet target
+// ---------------------------------------------------------------------------------------------
+
+struct Target {
+    buf: BytesMut,
+    cap: usize,
+    recorded: Vec<(DatagramFrame, Bytes)>,
+    recorded_other: usize,
+}
+
+impl Target {
+    fn new(cap: usize) -> Self {
+        Target { buf: BytesMut::with_capacity(cap.min(1 << 17)), cap, recorded: vec![], recorded_other: 0 }
+    }
+}
+
+unsafe impl BufMut for Target {
+    fn remaining_mut(&self) -> usize {
+        self.cap - self.buf.len()
+    }
+    unsafe fn advance_mut(&mut self, cnt: usize) {
+        assert!(cnt <= self.remaining_mut(), "packet overflow: advance {cnt} with {} left", self.remaining_mut());
+        unsafe { self.buf.advance_mut(cnt) }
+    }
+    fn chunk_mut(&mut self) -> &mut UninitSlice {
+        let rem = self.cap - self.buf.len();
+        if self.buf.capacity() - self.buf.len() < rem {
+            self.buf.reserve(rem);
+        }
+        let c = self.buf.chunk_mut();
+        let n = c.len().min(rem);
+        &mut c[..n]
+    }
+}
+
+impl<D: ContinuousData> RecordFrame<Frame<D>, D> for Target {
+    fn record_frame(&mut self, frame: &Frame<D>) {
+        match frame {
+            Frame::Datagram(f, d) => self.recorded.push((*f, d.to_bytes())),
+            _ => self.recorded_other += 1,
+        }
+    }
+}
+
+fn one_rtt() -> Type {
+    Type::Short(qbase::packet::r#type::short::OneRtt::from(0u8))
+}
+
+// ---------------------------------------------------------------------------------------------
+// history
+// ---------------------------------------------------------------------------------------------
+
+#[derive(Clone, Debug)]
+enum Op {
+    /// hand a datagram of `len` bytes to the writer
+    Send { len: usize },
+    /// assemble one packet: remaining space = |head of queue| + rel (>= 0); `many` = keep loading until refused
+    Load { rel: i64, many: bool },
+    /// incoming frame on `own`: payload length, with/without length field
+    Recv { len: usize, with_len: bool },
+    /// application reads on `own`
+    Read,
+}
+
+impl Op {
+    fn to_json(&self) -> Value {
+        match self {
+            Op::Send { len } => json!(["send", len]),
+            Op::Load { rel, many } => json!(["load", rel, many]),
+            Op::Recv { len, with_len } => json!(["recv", len, with_len]),
+            Op::Read => json!(["read"]),
+        }
+    }
+    fn from_json(v: &Value) -> Op {
+        match v[0].as_str().unwrap() {
+            "send" => Op::Send { len: v[1].as_u64().unwrap() as usize },
+            "load" => Op::Load { rel: v[1].as_i64().unwrap(), many: v[2].as_bool().unwrap() },
+            "recv" => Op::Recv { len: v[1].as_u64().unwrap() as usize, with_len: v[2].as_bool().unwrap() },
+            _ => Op::Read,
+        }
+    }
+}
+
+fn payload(seed: u64, ordinal: u64, len: usize) -> Bytes {
+    let mut v = vec![0u8; len];
+    vcore::prf_fill(seed, ordinal, 0, &mut v);
+    // make sure no payload looks like padding only / starts like a frame boundary by accident is irrelevant:
+    // payloads are compared byte for byte
+    Bytes::from(v)
+}
+
+fn varint_len(v: usize) -> usize {
+    VarInt::try_from(v).map(|v| v.encoding_size()).unwrap_or(8)
+}
+
+#[derive(Default)]
+struct Stats {
+    sends_ok: u64,
+    sends_refused: u64,
+    loads_ok: u64,
+    loads_refused: u64,
+    loads_empty: u64,
+    with_len: u64,
+    without_len: u64,
+    padded_first: u64,
+    multi_packets: u64,
+    piped: u64,
+    recv_ok: u64,
+    recv_violation: u64,
+    reads_ok: u64,
+    reads_pending: u64,
+    shape: u64,
+}
+
+type Fail = (String, String);
+
+macro_rules! fail {
+    ($sig:expr, $($arg:tt)*) => {
+        return Err(($sig.to_string(), format!($($arg)*)))
+    };
+}
+
+fn noop_cx() -> Context<'static> {
+    Context::from_waker(futures::task::noop_waker_ref())
+}
+
+fn run_history(seed: u64, peer_max: u64, local_max: u64, ops: &[Op], st: &mut Stats) -> Vec<(usize, Fail)> {
+    let tx = DatagramFlow::new(0, Default::default());
+    let rx = DatagramFlow::new(peer_max, Default::default());
+    let own = DatagramFlow::new(local_max, Default::default());
+
+    let mut out: Vec<(usize, Fail)> = vec![];
+    let mut soft: Vec<Fail> = vec![];
+
+    // writer creation
+    let writer = match (tx.writer(peer_max), peer_max) {
+        (Ok(w), m) if m > 0 => Some(w),
+        (Err(_), 0) => None,
+        (Ok(_), _) => return vec![(0, ("C19.writer.enabled-mismatch".into(), "writer() succeeds although the peer disabled datagrams (max_datagram_frame_size = 0)".into()))],
+        (Err(e), m) => return vec![(0, ("C19.writer.enabled-mismatch".into(), format!("writer({m}) refused: {e}")))],
+    };
+    let mut rx_reader = if peer_max > 0 { rx.reader().ok() } else { None };
+    let mut own_reader = match (own.reader(), local_max) {
+        (Ok(r), m) if m > 0 => Some(r),
+        (Err(_), 0) => None,
+        (Ok(_), _) => return vec![(0, ("C19.reader.enabled-mismatch".into(), "reader() succeeds although datagrams are disabled locally".into()))],
+        (Err(e), m) => return vec![(0, ("C19.reader.enabled-mismatch".into(), format!("reader() with local maximum {m} refused: {e}")))],
+    };
+
+    // models
+    let mut queue: VecDeque<Bytes> = VecDeque::new(); // accepted, not yet loaded
+    let mut ordinal = 0u64;
+    let mut own_expected: VecDeque<Bytes> = VecDeque::new();
+    let mut own_ordinal = 1u64 << 32;
+    let mut own_dead = false;
+
+    for (step, op) in ops.iter().enumerate() {
+        let r: Result<(), Fail> = (|| {
+            match *op {
+                Op::Send { len } => {
+                    let Some(w) = &writer else { return Ok(()) };
+                    let d = payload(seed, ordinal, len);
+                    ordinal += 1;
+                    let fits = 1 + len as u64 <= peer_max;
+                    // alternate the two entry points
+                    let r = if ordinal % 2 == 0 { w.send(&d) } else { w.send_bytes(d.clone()) };
+                    match (fits, r) {
+                        (true, Ok(())) => {
+                            st.sends_ok += 1;
+                            queue.push_back(d);
+                        }
+                        (false, Err(_)) => st.sends_refused += 1,
+                        (true, Err(e)) => fail!("C19.send.refused-fitting", "send of {len} bytes refused although 1+{len} <= peer limit {peer_max}: {e}"),
+                        (false, Ok(())) => fail!("C19.send.accepted-oversize", "send of {len} bytes accepted although 1+{len} > peer limit {peer_max}"),
+                    }
+                }
+                Op::Load { rel, many } => {
+                    let head = queue.front().map(|d| d.len()).unwrap_or(0);
+                    let space = (head as i64 + rel).max(0) as usize;
+                    let mut t = Target::new(space);
+                    let mut n_loaded = 0usize;
+                    let mut expect: Vec<Bytes> = vec![];
+                    let mut over: Vec<bool> = vec![];
+                    loop {
+                        let before = t.buf.len();
+                        let rem = t.remaining_mut();
+                        let r = tx.try_load_data_into(&mut t);
+                        match r {
+                            Err(_) => {
+                                if t.buf.len() != before {
+                                    fail!("C19.load.err-but-wrote", "try_load_data_into refused but wrote {} bytes", t.buf.len() - before);
+                                }
+                                match queue.front() {
+                                    None => st.loads_empty += 1,
+                                    Some(d) => {
+                                        st.loads_refused += 1;
+                                        if before == 0 && rem >= 1 + d.len() {
+                                            fail!("C19.load.refused-although-fits", "a {}-byte datagram was refused by an empty packet with {rem} bytes of space", d.len());
+                                        }
+                                    }
+                                }
+                                break;
+                            }
+                            Ok(()) => {
+                                let Some(d) = queue.pop_front() else {
+                                    fail!("C19.load.empty-queue-wrote", "try_load_data_into reported a datagram although none is queued");
+                                };
+                                if t.buf.len() == before {
+                                    fail!("C19.load.ok-but-nothing-written", "try_load_data_into reported success but wrote nothing");
+                                }
+                                st.loads_ok += 1;
+                                n_loaded += 1;
+                                // frame form from the bytes written by this call
+                                let written = &t.buf[before..];
+                                let pad = written.iter().take_while(|b| **b == 0).count();
+                                // (a payload may start with zero bytes only after the type byte, so leading zeros are padding)
+                                let ty = written.get(pad).copied();
+                                let (with_len, frame_size) = match ty {
+                                    Some(0x31) => (true, 1 + varint_len(d.len()) + d.len()),
+                                    Some(0x30) => (false, 1 + d.len()),
+                                    other => fail!("C19.load.frames:not-a-datagram-frame", "bytes written start (after {pad} padding bytes) with {other:?}, not a DATAGRAM type"),
+                                };
+                                if pad + frame_size != written.len() {
+                                    fail!("C19.load.frames:size", "wrote {} bytes for {pad} padding + a {}-byte DATAGRAM frame ({} payload bytes)", written.len(), frame_size, d.len());
+                                }
+                                if with_len {
+                                    st.with_len += 1;
+                                } else {
+                                    st.without_len += 1;
+                                    if pad > 0 {
+                                        st.padded_first += 1;
+                                    }
+                                    if t.remaining_mut() != 0 {
+                                        fail!("C19.load.no-length-not-last", "DATAGRAM frame without length written with {} bytes of the packet still free: the next frame would be swallowed", t.remaining_mut());
+                                    }
+                                }
+                                let over_limit = frame_size as u64 > peer_max;
+                                if over_limit {
+                                    let form = if with_len { "with-length-form" } else { "no-length-form" };
+                                    soft.push((
+                                        format!("C19.frame-exceeds-peer-limit:{form}"),
+                                        format!(
+                                            "a {}-byte datagram was accepted by send (1+{} <= {peer_max}) but emitted as a {frame_size}-byte DATAGRAM frame, larger than the peer's max_datagram_frame_size {peer_max} (packet space was {rem})",
+                                            d.len(),
+                                            d.len()
+                                        ),
+                                    ));
+                                }
+                                over.push(over_limit);
+                                st.shape = (st.shape ^ ((with_len as u64) << 1 | (pad > 0) as u64 | (n_loaded as u64) << 2)).wrapping_mul(0x100000001b3);
+                                expect.push(d);
+                                if !many {
+                                    break;
+                                }
+                            }
+                        }
+                    }
+                    if n_loaded > 1 {
+                        st.multi_packets += 1;
+                    }
+                    // what was recorded for the packet journal must be the same frames
+                    if t.recorded.len() != n_loaded || t.recorded_other != 0 {
+                        fail!("C19.load.frames:recorded", "{n_loaded} datagrams loaded but {} DATAGRAM / {} other frames recorded", t.recorded.len(), t.recorded_other);
+                    }
+                    // decode the packet payload with the real frame reader: exactly the loaded datagrams, in order
+                    let bytes = t.buf.clone().freeze();
+                    let mut got: Vec<(DatagramFrame, Bytes)> = vec![];
+                    for f in FrameReader::new(bytes, one_rtt()) {
+                        match f {
+                            Ok((Frame::Padding(_), _)) => {}
+                            Ok((Frame::Datagram(f, d), _)) => got.push((f, d)),
+                            Ok((other, _)) => fail!("C19.load.frames:foreign-frame", "packet payload decodes to an unexpected frame {:?}", qbase::frame::GetFrameType::frame_type(&other)),
+                            Err(e) => fail!("C19.load.frames:undecodable", "packet payload does not decode: {e:?}"),
+                        }
+                    }
+                    if got.len() != expect.len() {
+                        fail!("C19.load.frames:count", "{} datagrams loaded into the packet, it decodes to {} DATAGRAM frames", expect.len(), got.len());
+                    }
+                    for (k, ((f, d), e)) in got.iter().zip(expect.iter()).enumerate() {
+                        if d != e {
+                            let sig = if queue.iter().any(|q| q == d) { "C19.load.order" } else { "C19.load.payload-mismatch" };
+                            fail!(sig, "DATAGRAM frame {k} of the packet carries {} bytes that are not the {}-byte datagram sent at that position", d.len(), e.len());
+                        }
+                        if over[k] {
+                            continue; // already reported; a conforming receiver closes the connection on this frame
+                        }
+                        // the real receiver that advertised peer_max
+                        match rx.recv_frame((*f, d.clone())) {
+                            Ok(()) => st.piped += 1,
+                            Err(err) => fail!("C19.frame-exceeds-peer-limit:refused-by-real-receiver", "receiver with max_datagram_frame_size {peer_max} refuses the emitted frame ({} payload bytes): {err}", d.len()),
+                        }
+                        let Some(reader) = rx_reader.as_mut() else { fail!("C19.reader.enabled-mismatch", "no reader on the piped receiver") };
+                        match reader.poll_recv(&mut noop_cx()) {
+                            Poll::Ready(Ok(b)) if &b == e => {}
+                            Poll::Ready(Ok(b)) => fail!("C19.reader.payload", "peer application read {} bytes, sent datagram has {} bytes / different content", b.len(), e.len()),
+                            Poll::Ready(Err(err)) => fail!("C19.reader.payload", "peer application read failed: {err}"),
+                            Poll::Pending => fail!("C19.reader.lost", "datagram accepted by the receiver is not readable"),
+                        }
+                    }
+                }
+                Op::Recv { len, with_len } => {
+                    if own_dead {
+                        return Ok(());
+                    }
+                    let d = payload(seed, own_ordinal, len);
+                    own_ordinal += 1;
+                    let frame = DatagramFrame::new(with_len, VarInt::try_from(len).unwrap());
+                    let frame_size = frame.encoding_size() + len;
+                    debug_assert_eq!(frame_size, 1 + if with_len { varint_len(len) } else { 0 } + len);
+                    let r = own.recv_frame((frame, d.clone()));
+                    let too_big = frame_size as u64 > local_max;
+                    match (too_big, r) {
+                        (true, Err(e)) => {
+                            if e.kind() != ErrorKind::ProtocolViolation {
+                                fail!("C19.recv.error-kind", "oversize incoming datagram reported as {:?}", e.kind());
+                            }
+                            st.recv_violation += 1;
+                            own_dead = true; // the connection is closed by the caller
+                        }
+                        (false, Ok(())) => {
+                            st.recv_ok += 1;
+                            own_expected.push_back(d);
+                        }
+                        (true, Ok(())) => fail!("C19.recv.oversize-accepted", "incoming DATAGRAM frame of {frame_size} bytes accepted, local max_datagram_frame_size is {local_max}"),
+                        (false, Err(e)) => fail!("C19.recv.fitting-refused", "incoming DATAGRAM frame of {frame_size} bytes refused, local max_datagram_frame_size is {local_max}: {e}"),
+                    }
+                }
+                Op::Read => {
+                    let Some(reader) = own_reader.as_mut() else { return Ok(()) };
+                    match (reader.poll_recv(&mut noop_cx()), own_expected.pop_front()) {
+                        (Poll::Ready(Ok(b)), Some(e)) => {
+                            if b != e {
+                                let sig = if own_expected.iter().any(|q| *q == b) { "C19.reader.order" } else { "C19.reader.payload" };
+                                fail!(sig, "application read {} bytes, next received datagram has {} bytes / different content", b.len(), e.len());
+                            }
+                            st.reads_ok += 1;
+                        }
+                        (Poll::Pending, None) => st.reads_pending += 1,
+                        (Poll::Ready(Ok(b)), None) => fail!("C19.reader.spurious", "application read {} bytes although every received datagram was already read", b.len()),
+                        (Poll::Pending, Some(e)) => fail!("C19.reader.lost", "a received {}-byte datagram is not readable", e.len()),
+                        (Poll::Ready(Err(err)), _) => fail!("C19.reader.error", "read failed without a connection error: {err}"),
+                    }
+                }
+            }
+            Ok(())
+        })();
+        out.extend(soft.drain(..).map(|f| (step, f)));
+        if let Err(f) = r {
+            out.push((step, f));
+            break;
+        }
+    }
+    out
+}
+
+// ---------------------------------------------------------------------------------------------
+// generators
+// ---------------------------------------------------------------------------------------------
+
+const LIMITS: [u64; 14] = [0, 1, 2, 3, 63, 64, 65, 66, 100, 1200, 16383, 16384, 16386, 65535];
+
+fn gen_len(rng: &mut Rng, max: u64) -> usize {
+    // sizes 0..limit+2, dense around the limit and the varint-width boundaries
+    let m = max as i64;
+    let v = match rng.below(8) {
+        0 => 0,
+        1 => m - 1 + rng.below(4) as i64 - 1,           // limit-2 .. limit+1  (1+len vs limit)
+        2 => m - rng.below(4) as i64,
+        3 => *rng.pick(&[62i64, 63, 64, 65, 16382, 16383, 16384, 16385]),
+        4 => rng.below(max.max(1) + 3) as i64,
+        5 => rng.below(40) as i64,
+        _ => rng.below(max.min(1500).max(1) + 3) as i64,
+    };
+    v.clamp(0, m + 2) as usize
+}
+
+fn gen_history(rng: &mut Rng) -> (u64, u64, Vec<Op>) {
+    let peer_max = *rng.pick(&LIMITS);
+    let local_max = *rng.pick(&LIMITS);
+    let n = rng.range(4, 40);
+    let mut ops = vec![];
+    for _ in 0..n {
+        match rng.below(10) {
+            0..=3 => ops.push(Op::Send { len: gen_len(rng, peer_max) }),
+            4..=6 => {
+                // space relative to the head datagram: |d|-1, |d|, |d|+1 (no-length fits exactly), |d|+1+lenvarint (with length fits exactly), around them, far beyond
+                let rel = match rng.below(8) {
+                    0 => -1,
+                    1 => 0,
+                    2 => 1,
+                    3 => rng.range(2, 10) as i64,
+                    4 => *rng.pick(&[1200i64, 1500, 70000]),
+                    5 => -(rng.range(2, 70) as i64),
+                    _ => rng.range(0, 12) as i64,
+                };
+                ops.push(Op::Load { rel, many: rng.chance(1, 3) });
+            }
+            7 | 8 => ops.push(Op::Recv { len: gen_len(rng, local_max), with_len: rng.bool() }),
+            _ => ops.push(Op::Read),
+        }
+    }
+    // drain both sides
+    for _ in 0..rng.below(4) {
+        ops.push(Op::Load { rel: *rng.pick(&[1i64, 2, 3, 9, 1200]), many: true });
+    }
+    for _ in 0..rng.below(4) {
+        ops.push(Op::Read);
+    }
+    (peer_max, local_max, ops)
+}
+
+/// exhaustive sweep: for one (limit, size) pair every packet space from 0 to size + 12 and both load modes
+fn sweep(rep: &mut Report, st: &mut Stats, shard: u64, shards: u64) {
+    let mut idx = 0u64;
+    for &limit in LIMITS.iter().filter(|l| **l > 0) {
+        let sizes: Vec<usize> = {
+            let m = limit as usize;
+            let mut v: Vec<usize> = vec![0, 1, 2, 61, 62, 63, 64, 65, 66];
+            v.extend([m.saturating_sub(4), m.saturating_sub(3), m.saturating_sub(2), m.saturating_sub(1), m, m + 1]);
+            v.sort();
+            v.dedup();
+            v
+        };
+        for len in sizes {
+            // every space value for small datagrams; for large ones the values around 0 and around |d|, |d|+1, |d|+1+lenvarint
+            let spaces: Vec<usize> = if len <= 90 { (0..=len + 12).collect() } else { (0..=12).chain(len - 12..=len + 12).collect() };
+            for space in spaces {
+                idx += 1;
+                if idx % shards != shard {
+                    continue;
+                }
+                let ops = vec![Op::Send { len }, Op::Load { rel: space as i64 - len as i64, many: false }, Op::Load { rel: 1200, many: true }];
+                eval(rep, st, 19, limit, 100, &ops, "sweep");
+                rep.count("sweep_cases");
+            }
+            // receive side: both forms for this size against this limit as the local one
+            for with_len in [false, true] {
+                idx += 1;
+                if idx % shards != shard {
+                    continue;
+                }
+                let ops = vec![Op::Recv { len, with_len }, Op::Read, Op::Read];
+                eval(rep, st, 19, 100, limit, &ops, "sweep-recv");
+                rep.count("sweep_recv_cases");
+            }
+        }
+    }
+}
+
+fn eval(rep: &mut Report, st: &mut Stats, seed: u64, peer_max: u64, local_max: u64, ops: &[Op], mode: &str) {
+    rep.evaluations += 1;
+    let js: Vec<Value> = ops.iter().map(|o| o.to_json()).collect();
+    let r = vcore::panics::catch(|| {
+        let mut s = Stats::default();
+        let r = run_history(seed, peer_max, local_max, ops, &mut s);
+        (s, r)
+    });
+    match r {
+        Ok((s, r)) => {
+            macro_rules! acc { ($($f:ident),*) => { $( st.$f += s.$f; )* } }
+            acc!(sends_ok, sends_refused, loads_ok, loads_refused, loads_empty, with_len, without_len, padded_first, multi_packets, piped, recv_ok, recv_violation, reads_ok, reads_pending);
+            rep.set("load_shapes", s.shape ^ peer_max.min(3));
+            if s.loads_ok > 0 && s.loads_refused > 0 {
+                rep.distinct(vcore::fnv_str(&format!("{peer_max}/{local_max}/{}", Value::from(js.clone()))));
+            }
+            for (step, (sig, what)) in r {
+                let upto: Vec<Value> = js.iter().take(step + 1).cloned().collect();
+                rep.violation(sig, format!("step {step} of a {mode} history (peer max {peer_max}, local max {local_max}): {what}"), json!({"kind": "c19", "cseed": seed, "peer_max": peer_max, "local_max": local_max, "ops": upto}));
+            }
+        }
+        Err(p) => {
+            let loc = vcore::panics::short_location(&p.location);
+            let sig = if p.message.contains("packet overflow") { "C19.load.overflow".to_string() } else { format!("C19.panic:{loc}") };
+            rep.violation(sig, format!("panic in a {mode} history (peer max {peer_max}, local max {local_max}): {} at {loc}", p.message), json!({"kind": "c19", "cseed": seed, "peer_max": peer_max, "local_max": local_max, "ops": js}));
+        }
+    }
+}
+
+fn emit(rep: &mut Report, st: &Stats) {
+    rep.add("sends_accepted", st.sends_ok);
+    rep.add("sends_refused", st.sends_refused);
+    rep.add("loads_ok", st.loads_ok);
+    rep.add("loads_refused_no_room", st.loads_refused);
+    rep.add("loads_on_empty_queue", st.loads_empty);
+    rep.add("frames_with_length", st.with_len);
+    rep.add("frames_without_length", st.without_len);
+    rep.add("frames_padding_first", st.padded_first);
+    rep.add("packets_with_several_datagrams", st.multi_packets);
+    rep.add("frames_piped_through_real_receiver", st.piped);
+    rep.add("incoming_accepted", st.recv_ok);
+    rep.add("incoming_protocol_violation", st.recv_violation);
+    rep.add("reads_ok", st.reads_ok);
+    rep.add("reads_pending", st.reads_pending);
+}
+
+pub fn run(args: &Args, rep: &mut Report) {
+    rep.rule = "history = (peer limit, local limit, op sequence of send / packet assembly with a chosen remaining space / incoming frame / read); \
+                distinct = distinct (limits, op sequence); non-trivial = at least one datagram loaded into a packet and at least one load refused for lack of room"
+        .into();
+    let mut st = Stats::default();
+    if let Some(path) = args.get("replay") {
+        let v: Value = serde_json::from_str(&std::fs::read_to_string(path).unwrap()).unwrap();
+        let v = if v.get("replay").is_some() { v["replay"].clone() } else { v };
+        let ops: Vec<Op> = v["ops"].as_array().unwrap().iter().map(Op::from_json).collect();
+        eval(rep, &mut st, v["cseed"].as_u64().unwrap(), v["peer_max"].as_u64().unwrap(), v["local_max"].as_u64().unwrap(), &ops, "replay");
+        emit(rep, &st);
+        return;
+    }
+    let thorough = args.get("tier") == Some("thorough");
+    let shard = args.u64("shard", 0);
+    let shards = args.u64("shards", 1).max(1);
+    sweep(rep, &mut st, shard, shards);
+    rep.exhaustive = Some(true);
+    let n = args.budget(if thorough { 150_000 } else { 8_000 });
+    let mut rng = Rng::new(args.seed() ^ 0xc19).fork(shard);
+    for i in 0..n {
+        let cseed = rng.next_u64();
+        let (peer_max, local_max, ops) = gen_history(&mut rng);
+        if i < 3 {
+            rep.sample(json!({"peer_max": peer_max, "local_max": local_max, "ops": ops.iter().take(14).map(|o| o.to_json()).collect::<Vec<_>>()}));
+        }
+        eval(rep, &mut st, cseed, peer_max, local_max, &ops, "random");
+    }
+    rep.add("random_histories", n);
+    emit(rep, &st);
 }
